@@ -143,49 +143,70 @@ func TestVerifEnumC19Journal(t *testing.T) {
 				edges = append(edges, e.RecordingStart.Add(d), e.RecordingEnd.Add(d))
 			}
 		}
-		for _, from := range edges {
-			for _, to := range edges {
-				if to.Before(from) {
-					continue
+		// the lines of a journal need not be in chronological order (rotated files concatenated, two
+		// writers, a clock set back): every order of the same lines must give the same answers
+		lines := bytes.Split(bytes.TrimSpace(journal), []byte("\n"))
+		orders := [][]int{nil}
+		if exact && len(lines) >= 2 && len(lines) <= 4 {
+			orders = permutations(len(lines))
+		}
+		for oi, order := range orders {
+			journal := journal
+			if order != nil {
+				var b bytes.Buffer
+				for _, k := range order {
+					b.Write(lines[k])
+					b.WriteByte('\n')
 				}
-				res, err := NewClusterCounter(from, to).Count(bytes.NewReader(journal))
-				r.Case(fmt.Sprintf("%s|%d|%d", name, from.UnixNano(), to.UnixNano()), true)
-				if err != nil {
-					r.Fail("journal:count-error", fmt.Sprintf("Count failed on a journal written by ClusterWriter: %v", err), name)
-					return
-				}
-				want := map[string]bool{}
-				var inc int64
-				for k, e := range entries {
-					if !e.RecordingStart.Before(from) && !e.RecordingEnd.After(to) {
-						inc++
-						for a := range perEntry[k] {
-							want[a] = true
+				journal = b.Bytes()
+			}
+			for _, from := range edges {
+				for _, to := range edges {
+					if to.Before(from) {
+						continue
+					}
+					res, err := NewClusterCounter(from, to).Count(bytes.NewReader(journal))
+					r.Case(fmt.Sprintf("%s|%d|%d|%d", name, oi, from.UnixNano(), to.UnixNano()), true)
+					if order != nil && oi > 0 {
+						name = strings.SplitN(name, " [lines in order", 2)[0] + fmt.Sprintf(" [lines in order %v]", order)
+					}
+					if err != nil {
+						r.Fail("journal:count-error", fmt.Sprintf("Count failed on a journal written by ClusterWriter: %v", err), name)
+						return
+					}
+					want := map[string]bool{}
+					var inc int64
+					for k, e := range entries {
+						if !e.RecordingStart.Before(from) && !e.RecordingEnd.After(to) {
+							inc++
+							for a := range perEntry[k] {
+								want[a] = true
+							}
 						}
 					}
-				}
-				if res.ChunkIncluded != inc {
-					r.Fail("journal:wrong-chunks-selected", fmt.Sprintf("window [%v, %v]: %d chunks included, %d lie inside the window", from, to, res.ChunkIncluded, inc), name)
-					return
-				}
-				n := uint64(len(want))
-				if exact {
-					if res.Sum != n {
-						r.Fail("journal:small-set-not-exact", fmt.Sprintf("window over %d chunks: estimate %d for %d distinct addresses", inc, res.Sum, n), name)
+					if res.ChunkIncluded != inc {
+						r.Fail("journal:wrong-chunks-selected", fmt.Sprintf("window [%v, %v]: %d chunks included, %d lie inside the window", from, to, res.ChunkIncluded, inc), name)
 						return
 					}
-				} else {
-					lo, hi := float64(n)*0.98, float64(n)*1.02
-					if float64(res.Sum) < lo || float64(res.Sum) > hi {
-						r.Fail("journal:estimate-outside-2-percent", fmt.Sprintf("window over %d chunks: estimate %d for %d distinct addresses", inc, res.Sum, n), name)
-						return
+					n := uint64(len(want))
+					if exact {
+						if res.Sum != n {
+							r.Fail("journal:small-set-not-exact", fmt.Sprintf("window over %d chunks: estimate %d for %d distinct addresses", inc, res.Sum, n), name)
+							return
+						}
+					} else {
+						lo, hi := float64(n)*0.98, float64(n)*1.02
+						if float64(res.Sum) < lo || float64(res.Sum) > hi {
+							r.Fail("journal:estimate-outside-2-percent", fmt.Sprintf("window over %d chunks: estimate %d for %d distinct addresses", inc, res.Sum, n), name)
+							return
+						}
 					}
 				}
 			}
 		}
 	}
 
-	r.Begin("journal-small", "chunkings of address multisets of size 0..64 into <= 3 chunks (with overlaps between chunks) x all windows whose ends are chunk edges +-1 ns: chunks selected = those inside the window, estimate exact")
+	r.Begin("journal-small", "chunkings of address multisets of size 0..64 into <= 3 chunks (with overlaps between chunks) x all windows whose ends are chunk edges +-1 ns: chunks selected = those inside the window, estimate exact; for journals of 2-4 lines the same for every order of the lines in the file")
 	sizes := []int{0, 1, 2, 7, 8, 33, 64}
 	for _, a := range sizes {
 		if !r.Mine() {
@@ -224,4 +245,25 @@ func TestVerifEnumC19Journal(t *testing.T) {
 	if _, n := r.Shard(); n == 1 || func() bool { s, _ := r.Shard(); return s == 1 }() {
 		check("large:100000+1000", []chunkSpec{{0, 100000}, {50000, 1000}}, false)
 	}
+}
+
+// permutations of 0..n-1, the identity first.
+func permutations(n int) [][]int {
+	var out [][]int
+	var rec func(cur []int, used []bool)
+	rec = func(cur []int, used []bool) {
+		if len(cur) == n {
+			out = append(out, append([]int(nil), cur...))
+			return
+		}
+		for i := 0; i < n; i++ {
+			if !used[i] {
+				used[i] = true
+				rec(append(cur, i), used)
+				used[i] = false
+			}
+		}
+	}
+	rec(nil, make([]bool, n))
+	return out
 }
